@@ -643,8 +643,105 @@ func genNatHole() ([]byte, error) {
 		})
 	}
 
+	// server/proxy/xtcp.go: where the registration with the nat hole controller is made and removed.
+	//   nh_xtcp_close : the statements of XTCPProxy.Close (inside closeOnce.Do(func(){...}) if present), classified
+	//   nh_xtcp_run   : the statements of XTCPProxy.Run up to and including the `go` statement, classified
+	//   nh_xtcp_loop_calls : controller methods called (also via defer) inside the goroutine started by Run
+	classify := func(st ast.Stmt) string {
+		callName := func(e ast.Expr) string {
+			call, ok := e.(*ast.CallExpr)
+			if !ok {
+				return "?" + src(e)
+			}
+			switch f := call.Fun.(type) {
+			case *ast.SelectorExpr:
+				if strings.Contains(src(f.X), "NatHoleController") {
+					return "controller." + f.Sel.Name
+				}
+				return f.Sel.Name
+			case *ast.Ident:
+				if f.Name == "close" && len(call.Args) == 1 {
+					if sel, ok := call.Args[0].(*ast.SelectorExpr); ok {
+						return "close:" + sel.Sel.Name
+					}
+				}
+				return f.Name
+			}
+			return "?" + src(call.Fun)
+		}
+		switch x := st.(type) {
+		case *ast.ExprStmt:
+			return "call:" + callName(x.X)
+		case *ast.GoStmt:
+			return "go"
+		case *ast.DeferStmt:
+			return "defer:" + callName(x.Call)
+		case *ast.AssignStmt:
+			if len(x.Rhs) == 1 {
+				if _, ok := x.Rhs[0].(*ast.CallExpr); ok {
+					return "assign-call:" + callName(x.Rhs[0])
+				}
+			}
+			return "assign"
+		case *ast.IfStmt:
+			return "if"
+		case *ast.ReturnStmt:
+			return "return"
+		}
+		return "other:" + src(st)
+	}
+	var xClose, xRun, xLoop []string
+	if fx, err := parse("server/proxy/xtcp.go"); err == nil {
+		for _, d := range fx.Decls {
+			fd, ok := d.(*ast.FuncDecl)
+			if !ok || fd.Recv == nil || fd.Body == nil || !strings.Contains(src(fd.Recv.List[0].Type), "XTCPProxy") {
+				continue
+			}
+			switch fd.Name.Name {
+			case "Close":
+				body := fd.Body.List
+				if len(body) == 1 {
+					if es, ok := body[0].(*ast.ExprStmt); ok {
+						if call, ok := es.X.(*ast.CallExpr); ok && strings.HasSuffix(src(call.Fun), "closeOnce.Do") && len(call.Args) == 1 {
+							if fl, ok := call.Args[0].(*ast.FuncLit); ok {
+								body = fl.Body.List
+							}
+						}
+					}
+				}
+				for _, st := range body {
+					xClose = append(xClose, classify(st))
+				}
+			case "Run":
+				for _, st := range fd.Body.List {
+					xRun = append(xRun, classify(st))
+					if gs, ok := st.(*ast.GoStmt); ok {
+						ast.Inspect(gs.Call, func(n ast.Node) bool {
+							if call, ok := n.(*ast.CallExpr); ok {
+								if sel, ok := call.Fun.(*ast.SelectorExpr); ok && strings.Contains(src(sel.X), "NatHoleController") {
+									xLoop = append(xLoop, sel.Sel.Name)
+								}
+							}
+							return true
+						})
+						break
+					}
+				}
+			}
+		}
+	} else {
+		xClose = []string{"?parse error"}
+	}
+	coqStrList := func(l []string) string {
+		var q []string
+		for _, x := range l {
+			q = append(q, tx.CoqString(x))
+		}
+		return "[" + strings.Join(q, "; ") + "]"
+	}
+
 	var b bytes.Buffer
-	b.WriteString("(* GENERATED by translator unit T2 from pkg/nathole/{analysis,nathole,classify,controller}.go -- do not edit *)\n")
+	b.WriteString("(* GENERATED by translator unit T2 from pkg/nathole/{analysis,nathole,classify,controller}.go and server/proxy/xtcp.go -- do not edit *)\n")
 	b.WriteString("From FRP Require Import Model.NatHoleTypes.\nLocal Open Scope string_scope.\n")
 	b.WriteString("Definition T2_translated : bool := true.\n")
 	keys := func(m map[string]string) []string {
@@ -694,5 +791,8 @@ func genNatHole() ([]byte, error) {
 	fmt.Fprintf(&b, "Definition nh_vread_timeout : nh_expr := %s%%Z.\n", vRead)
 	fmt.Fprintf(&b, "Definition nh_cread_timeout : nh_expr := %s%%Z.\n", cRead)
 	fmt.Fprintf(&b, "Definition nh_staggers : list (string * Z) := [%s]%%Z.\n", strings.Join(staggers, "; "))
+	fmt.Fprintf(&b, "Definition nh_xtcp_close : list string := %s.\n", coqStrList(xClose))
+	fmt.Fprintf(&b, "Definition nh_xtcp_run : list string := %s.\n", coqStrList(xRun))
+	fmt.Fprintf(&b, "Definition nh_xtcp_loop_calls : list string := %s.\n", coqStrList(xLoop))
 	return b.Bytes(), nil
 }
